@@ -87,6 +87,9 @@ impl Prop for C14 {
     fn id(&self) -> &'static str {
         "C14"
     }
+    fn canary(&self) -> bool {
+        true
+    }
     fn rule(&self) -> String {
         "cases = chains of 1-4 completion units answered to COM_QUERY (text) or COM_STMT_EXECUTE (binary): (rows, last_insert_id) pairs from B x B with B = {0, 1, 250..254, 65535, 65536, 2^24-1, 2^24, 2^32-1, 2^32, 2^63, 2^64-2, 2^64-1} (enumerated) and random u64 pairs, via completed or complete_one chains (enumerated: chains of 255, 256, 257 units); zero-column resultsets with n in {0, 1, 2, 250, 251, 300, 70000} rows ended by end_row / write_row mixes, and with n+1 rows for n in {65535, 65536, 2^24-1, 2^24, 2^32-2, 2^32+4 (thorough: also 2^31-1, 2^31, 2^32-1, 2^33+1)} ended by end_row() in a loop. Oracle: the decoded OK (own decoder + mysql_common's OkPacket parser) carries exactly those two numbers; a zero-column set's OK carries affected-rows = number of rows the program ended. Non-trivial = a value >= 251 (beyond the 1-byte length encoding), a chain of >= 2, or a zero-column set with rows.".into()
     }
